@@ -15,7 +15,8 @@ META = {
             "invariant on ALL reference-typed attributes (by schema syntax) of the projected entries.",
     "note": "model bound: 4 entries, 3 reference attributes, 4 (quick) / 6 (thorough) edits; observations: the model-range "
             "entries, every entry referencing them and their member ancestors after every commit, the whole database on reset "
-            "and every 25th step; single server (replicated conflicts belong to the repl group)",
+            "and every 25th step; plus a replicated stage (scripted lag / purge patterns and random lifecycle histories on 2-3 real "
+            "replicas) judged by KReplTrace!NoDanglingRef on member / memberof / directmemberof",
     "design_ref": "DESIGN.md section 6, C16",
     "technique": "TLA+ transcription of refint/delete/revive model-checked by TLC; replay of model histories and trace validation of random histories on the real server",
 }
@@ -42,6 +43,14 @@ def run(tier, replay):
     obs = dc.concat(f"{wd}/obs.ndjson", parts)
     tv, lines = dc.validate_sharded("KRefintTrace", obs, PID, wd, shard=6000, timeout=2400)
     cnt = dc.judge(R, PID, tv, lines, "a live entry holds a reference to an entry that is not live")
+    # replicated stage (2-3 real replicas, driver of the repl group): member / memberof references after replication of
+    # deletes, recycle-bin purges and tombstones, judged by KReplTrace!NoDanglingRef
+    rviol, rhist, rsteps = ([], 0, 0)
+    if not replay:
+        from kv.checks import _repl
+        rviol, rhist, rsteps = _repl.repl_stage(PID, tier, wd, "lifecycle")
+        for sig, desc, rl in rviol:
+            R.violation(sig, desc, rl)
     R.coverage = {
         "states": res["distinct"], "transitions": res["generated"],
         "model_counterexamples": len(cex), "model_behaviours_sampled": len(beh), "model_histories_replayed": replayed,
@@ -50,10 +59,11 @@ def run(tier, replay):
         "samples": dc.samples(lines),
         "l2_drift": len(tv["drift"]), "l2_drift_first": tv["drift"][:3],
         "l1": cnt, "ops": dc.op_counts(lines),
+        "replicated_histories": rhist, "replicated_steps_judged": rsteps,
         "rule": "every observed state: every value of every reference-typed attribute (schema syntax reference / oauth scope map / "
                 "claim map) of every live projected entry targets a live entry (TLA+ KRefintTrace!DanglingObs = {})",
     }
-    R.assumptions = ["single server; references created by replication conflicts are covered by the repl group",
+    R.assumptions = ["the replicated stage projects member / memberof / directmemberof of the model population only",
                      "references among built-in entries that never involve a model entry are checked on full projections only "
                      "(reset, domain rename, every 25th step)"]
     R.finish()
